@@ -164,3 +164,66 @@ def lazy_report(e) -> Dict[str, Any]:
             "ctx": row["schema_context"],
         })
     return {"rows": rows, "counts": {k: int(v) for k, v in dict(e.error_counts).items()}}
+
+
+CHECK_NAMES = {"equal_to": "eq", "not_equal_to": "ne", "greater_than": "gt", "greater_than_or_equal_to": "ge",
+               "less_than": "lt", "less_than_or_equal_to": "le", "in_range": "in_range", "isin": "isin", "notin": "notin",
+               "str_matches": "str_matches", "str_contains": "str_contains", "str_startswith": "str_startswith",
+               "str_endswith": "str_endswith", "str_length": "str_length", "unique_values_eq": "unique_values_eq"}
+
+
+def check(c) -> Dict[str, Any]:
+    """a pandera Check -> abstract check record (built-ins only; anything else is unprojectable)"""
+    k = CHECK_NAMES.get(c.name)
+    st = dict(c.statistics or {})
+    st.pop("options", None)
+    if k is None:
+        return {"k": "?", "name": str(c.name)}
+    if k in ("eq", "ne"):
+        a = [aval(st.get("value"))]
+    elif k in ("gt", "ge"):
+        a = [aval(st.get("min_value"))]
+    elif k in ("lt", "le"):
+        a = [aval(st.get("max_value"))]
+    elif k == "in_range":
+        a = [aval(st.get("min_value")), aval(st.get("max_value")), aval(bool(st.get("include_min", True))), aval(bool(st.get("include_max", True)))]
+    elif k in ("isin", "notin"):
+        vals = st.get("allowed_values", st.get("forbidden_values"))
+        a = [aval(x) for x in list(vals)]
+    elif k == "str_length":
+        a = [aval(st.get("min_value")), aval(st.get("max_value"))]
+    elif k in ("str_matches", "str_contains"):
+        pat = st.get("pattern")
+        pat = getattr(pat, "pattern", pat)
+        try:
+            a = [["re", conc.TABLES["re"].index(pat) + 1]]
+        except ValueError:
+            a = [["?", pat]]
+    elif k in ("str_startswith", "str_endswith"):
+        a = [aval(st.get("string"))]
+    else:
+        a = [aval(x) for x in list(st.get("values", []))]
+    return {"k": k, "a": a, "ina": bool(c.ignore_na), "nfc": int(c.n_failure_cases or 0),
+            "warn": bool(c.raise_warning), "ew": bool(getattr(c, "element_wise", False))}
+
+
+DT_NAMES = {"int64": "int64", "float64": "float64", "str": "str", "object": "object", "bool": "bool", "None": "none",
+            "Int64": "Int64", "datetime64[ns]": "datetime"}
+
+
+def dtype_name(dt) -> str:
+    return DT_NAMES.get(str(dt), str(dt))
+
+
+def component(c, key=None, column: bool = True) -> Dict[str, Any]:
+    """a pandera Column / Index -> abstract record with every attribute it carries"""
+    d = getattr(c, "default", None)
+    rec = {"key": aval(key if key is not None else c.name), "dtype": dtype_name(c.dtype), "nullable": bool(c.nullable),
+           "unique": bool(c.unique), "report": c.report_duplicates, "coerce": bool(c.coerce),
+           "default": aval(None if d is None or d != d else d), "title": c.title is not None, "desc": c.description is not None,
+           "meta": c.metadata is not None, "drop": bool(getattr(c, "drop_invalid_rows", False)),
+           "checks": [check(x) for x in c.checks]}
+    if column:
+        rec["required"] = bool(c.required)
+        rec["regex"] = bool(c.regex)
+    return rec
